@@ -8,5 +8,6 @@ for d in seeded/*/; do
   line=$(echo "$out" | grep "^== " | head -1)
   how=$(echo "$out" | grep -c "FAILURE")
   nf=$(echo "$out" | grep -c "no-failing-input-found")
-  echo "$id $line failures_shown=$how no_failing_input=$nf $(echo "$out" | grep -E 'does not apply|not compile' | head -1)"
+  sup=""; [ -f seeded/$id/superseded.txt ] && sup="SUPERSEDED: $(cat seeded/$id/superseded.txt)"
+  echo "$id $line failures_shown=$how no_failing_input=$nf $(echo "$out" | grep -E 'does not apply|not compile' | head -1) $sup"
 done
